@@ -276,7 +276,7 @@ def _obs(w):
 
 # -- C18 ---------------------------------------------------------------------------------------
 
-_HEX = re.compile(r"^[0-9a-f]+(_delete)?$")
+_HEX = re.compile(r"^[0-9a-fA-F]+(_delete)?$")  # either case: tag_object takes the cid as the caller spells it
 _TMP = re.compile(r"^(tmp)?[0-9a-zA-Z_]+$")
 
 
